@@ -206,6 +206,8 @@ def tally(ctx, trace):
             if op == 'begin':
                 slots[e['c']] = 0
                 inc('begin:body=' + e['body'])
+                if e.get('hosthdr', '') != e.get('urlhost', ''):
+                    inc('begin:host-header-names-another-host')
                 if sum(1 for v in slots.values() if v >= 0) > 1:
                     inc('begin:concurrent')
             elif op == 'end':
@@ -234,7 +236,7 @@ NEEDED = {
     'C10': ['regreq:1:bearer', 'regreq:2:bearer', 'regreq:1:static', 'tokreq:POST:refresh', 'tokreq:GET:none', 'tokresp:grant', 'tokresp:grant:life',
             'tokresp:e401', 'tick', 'tokreq:challenge-text-kept', 'shape:expired-token-behind-live-one-needed-again'],
     'C11': ['regreq:2:basic', 'regreq:1:basic', 'tokreq:GET:basic', 'tokreq:POST:refresh', 'tokresp:e404', 'cfglookup', 'end:403', 'end:-1',
-            'begin:body=plain', 'begin:body=getbody', 'regresp:401:other', 'regresp:401:bad', 'regresp:401:basic+bearer', 'tokresp:grant:newrt'],
+            'begin:body=plain', 'begin:body=getbody', 'regresp:401:other', 'regresp:401:bad', 'regresp:401:basic+bearer', 'tokresp:grant:newrt', 'begin:host-header-names-another-host'],
 }
 
 
